@@ -386,6 +386,105 @@ def run_upg(case):
                 "calls": [[k, st, hx(m.encode("utf8", "replace")), hx(out)] for k, st, m, out in rec.calls]}
 
 
+H2_STATES = {"open": (0, 1, 0), "halfclosed": (0, 1, 0), "headers_sent": (0, 1, 1), "ended_local": (0, 0, 1), "client_reset": (1, 0, 0)}
+
+
+def run_h2err(case):
+    """the real Http2Server: a request stream in a chosen state (open / client finished / response HEADERS already sent /
+    response finished while the client is still sending / reset by the client), then ResponseProtocolError(code, message);
+    what an h2 client sees on that stream afterwards"""
+    global _ERR_CTX
+    from common.world import make_context
+    from mitmproxy import http as mhttp
+    from mitmproxy.proxy import commands, events
+    from mitmproxy.test import taddons
+    from mitmproxy.addons import proxyserver
+    import h2.connection, h2.config, h2.events
+    if _ERR_CTX is None:
+        cm = taddons.context(proxyserver.Proxyserver()); _ERR_CTX = (cm, cm.__enter__())
+    ctx = make_context(opts=_ERR_CTX[1].options); ctx.client.alpn = b"h2"
+    lay = _http2.Http2Server(ctx)
+    out = []
+
+    def run(ev):
+        for c in lay.handle_event(ev):
+            if isinstance(c, commands.SendData) and c.connection is ctx.client: out.append(c.data)
+    run(events.Start())
+    cl = h2.connection.H2Connection(h2.config.H2Configuration(client_side=True))
+    cl.initiate_connection()
+    st = case["state"]
+    cl.send_headers(1, [(":method", "POST"), (":scheme", "http"), (":authority", "a.example"), (":path", "/")],
+                    end_stream=(st == "halfclosed"))
+    run(events.DataReceived(ctx.client, cl.data_to_send()))
+    if st in ("headers_sent", "ended_local"):
+        run(_events.ResponseHeaders(1, mhttp.Response.make(200, b"", {}), st == "ended_local"))
+        if st == "ended_local": run(_events.ResponseEndOfMessage(1))
+    if st == "client_reset":
+        cl.reset_stream(1); run(events.DataReceived(ctx.client, cl.data_to_send()))
+    cl.receive_data(b"".join(out)); out.clear()
+    run(_events.ResponseProtocolError(1, msg_of(case), _events.ErrorCode(case["code"])))
+    evs = cl.receive_data(b"".join(out))
+    res = {"kind": "nothing", "hdrs": [], "body_hex": "-", "ended": False, "reset": None}
+    for e in evs:
+        if isinstance(e, h2.events.ResponseReceived): res["kind"] = "page"; res["hdrs"] = [[hx(k), hx(v)] for k, v in e.headers]
+        elif isinstance(e, h2.events.DataReceived): res["body_hex"] = hx(unhx(res["body_hex"]) + e.data)
+        elif isinstance(e, h2.events.StreamEnded): res["ended"] = True
+        elif isinstance(e, h2.events.StreamReset): res["kind"] = "reset" if res["kind"] == "nothing" else "page+reset"; res["reset"] = int(e.error_code)
+    return res
+
+
+def json_key(x):
+    import json
+    return json.dumps(x)
+
+
+def seq_head(st):
+    """(headers, assembled head bytes) of the head the harness relays for status st — computed from what the harness puts in"""
+    hdrs = [(b"Connection", b"Upgrade"), (b"Upgrade", b"foo")] if st == 101 else [(b"Content-Length", b"10")] if st >= 200 else []
+    reason = status_codes.RESPONSES.get(st, "X").encode()
+    return hdrs, b"HTTP/1.1 %d %s\r\n" % (st, reason) + b"".join(k + b": " + v + b"\r\n" for k, v in hdrs) + b"\r\n"
+
+
+def run_errseq(case):
+    """a whole HTTP/1 client connection on the real Http1Server: any sequence of relayed heads, body chunks and errors;
+    the transport is emulated as the proxy core does (nothing is written after our close)"""
+    global _ERR_CTX
+    from common.world import make_context
+    from mitmproxy import http as mhttp
+    from mitmproxy.proxy import commands, events
+    from mitmproxy.connection import ConnectionState
+    from mitmproxy.test import taddons
+    from mitmproxy.addons import proxyserver
+    if _ERR_CTX is None:
+        cm = taddons.context(proxyserver.Proxyserver()); _ERR_CTX = (cm, cm.__enter__())
+    ctx = make_context(opts=_ERR_CTX[1].options)
+    lay = _http1.Http1Server(ctx)
+    wire = bytearray()
+
+    def run(gen):
+        n = 0
+        for c in gen:
+            if isinstance(c, commands.SendData) and ctx.client.state & ConnectionState.CAN_WRITE:
+                wire.extend(c.data); n += len(c.data)
+            elif isinstance(c, commands.CloseConnection):
+                ctx.client.state = ConnectionState.CLOSED
+        return n
+    run(lay.handle_event(events.Start()))
+    run(lay.handle_event(events.DataReceived(ctx.client, b"POST /up HTTP/1.1\r\nHost: a.example\r\nContent-Length: 10\r\n\r\nabc")))
+    wrote, last = [], 0
+    for op in case["ops"]:
+        if op[0] == "r":
+            hdrs, _ = seq_head(op[1])
+            resp = mhttp.Response(b"HTTP/1.1", op[1], status_codes.RESPONSES.get(op[1], "X").encode(), mhttp.Headers(hdrs), None, None, 1.0, None)
+            run(lay.send(_events.ResponseHeaders(1, resp, False))); last = op[1]
+        elif op[0] == "b":
+            run(lay.send(_events.ResponseData(1, b"01")))
+        else:
+            n = run(lay.send(_events.ResponseProtocolError(1, unhx(op[2]).decode("utf-8", "replace"), _events.ErrorCode(op[1]))))
+            wrote.append([last, n])
+    return {"wire_hex": hx(bytes(wire)), "wrote": wrote, "open": bool(ctx.client.state & ConnectionState.CAN_WRITE)}
+
+
 class Check(PropertyCheck):
     prop = "C12"
     design_ref = "§5 C12"
@@ -486,6 +585,19 @@ class Check(PropertyCheck):
                 for cw in (True, False):
                     if not cw and head not in ("none", "101", "200"): continue
                     yield {"op": "err", "code": code.value, "head": head, "canwrite": cw, "msg_hex": hx(MARK.encode())}
+        # whole connections: short op sequences over {relay head, body chunk, error}
+        m = hx(MARK.encode())
+        heads = [100, 101, 200]
+        for a in heads + [None]:
+            for b in heads + [None]:
+                for code1 in (2, 7):
+                    for code2 in (2, 5):
+                        ops = ([["r", a]] if a else []) + [["e", code1, m]] + ([["r", b], ["b"]] if b else []) + [["e", code2, m]]
+                        yield {"op": "errseq", "ops": ops}
+        # the HTTP/2 send site: every ErrorCode x stream state
+        for code in _events.ErrorCode:
+            for st in H2_STATES:
+                yield {"op": "h2err", "code": code.value, "state": st, "msg_hex": hx(MARK.encode())}
         # upgrade-style requests x the point where the upstream dies (which head has been relayed by then)
         for req in UPG_REQ:
             for srv in UPG_SRV:
@@ -526,6 +638,19 @@ class Check(PropertyCheck):
                 rq = rng.pick(UPG_REQ)
                 yield {"op": "upg", "req": rq, "srv": rng.pick(UPG_SRV), "stream_req": rq != "expect" or rng.chance(0.6),
                        "mk_hex": hx(self.dense(rng, rng.pick([3, 20, 300]), rng.pick([0.1, 1.0])).encode())}
+                continue
+            if rng.chance(0.01):
+                ops, have_head = [], False
+                for _ in range(rng.randint(1, 6)):
+                    k = rng.pick("rbee") if have_head else rng.pick("ree")
+                    if k == "r": ops.append(["r", rng.pick([100, 101, 103, 200, 404, 502])]); have_head = True
+                    elif k == "b": ops.append(["b"])
+                    else: ops.append(["e", rng.pick(list(_events.ErrorCode)).value, hx(self.dense(rng, rng.pick([0, 3, 40]), 0.5).encode())])
+                yield {"op": "errseq", "ops": ops}
+                continue
+            if rng.chance(0.01):
+                yield {"op": "h2err", "code": rng.pick(list(_events.ErrorCode)).value, "state": rng.pick(sorted(H2_STATES)),
+                       "msg_hex": hx(self.dense(rng, rng.pick([0, 3, 20, 300, 1025]), rng.pick([0.1, 1.0])).encode())}
                 continue
             if rng.chance(0.03):
                 yield {"op": "err", "code": rng.pick(list(_events.ErrorCode)).value, "head": rng.pick(HEAD_KINDS), "canwrite": rng.chance(0.85),
@@ -589,6 +714,10 @@ class Check(PropertyCheck):
             return {"page_hex": hx(page), "resp_hex": hx(resp), "model_msg_hex": hx(msg.encode("utf8", "replace"))}
         if case["op"] == "err":
             return run_err(case)
+        if case["op"] == "h2err":
+            return run_h2err(case)
+        if case["op"] == "errseq":
+            return run_errseq(case)
         if case["op"] == "upg":
             obs = run_upg(case)
             self._stash = (self._key(case), obs)
@@ -630,6 +759,19 @@ class Check(PropertyCheck):
             if dict(rs[0]["headers"]).get(b"content-type") != b"text/html":
                 fails.append("HTTP/1 error response does not declare Content-Type: text/html")
             return fails + scan_page(rs[0]["status"], rs[0]["body"])
+        if case["op"] == "errseq":
+            for last, n in obs["wrote"]:
+                if n and (last == 101 or last >= 200):
+                    fails.append(f"error path wrote {n} bytes after a relayed {last} head")
+            if sum(1 for _, n in obs["wrote"] if n) > 1:
+                fails.append("more than one error response written on one connection")
+            return fails
+        if case["op"] == "h2err":
+            if not obs["kind"].startswith("page"): return []
+            d = dict((unhx(k), unhx(v)) for k, v in obs["hdrs"])
+            if d.get(b"content-type") != b"text/html": fails.append("HTTP/2 error page without content-type text/html")
+            if not obs["ended"] or obs["kind"] != "page": fails.append("HTTP/2 error page stream not ended cleanly")
+            return fails + scan_page(int(d.get(b":status", b"0")), unhx(obs["body_hex"]))
         if case["op"] == "upg":
             if obs["crash"]: fails.append("layer raised %s while the upstream died" % obs["crash"][0])
             return fails + read_client_wire(unhx(obs["wire_hex"]))[1]
@@ -657,6 +799,16 @@ class Check(PropertyCheck):
             return [f"fmt {case['status']} {m}", f"resp {case['status']} {m}"]
         if case["op"] == "err":
             return [f"errh {int(case['canwrite'])} {relayed_status(case['head'])} {case['code']} " + hx(msg_of(case).encode("utf8", "replace"))]
+        if case["op"] == "errseq":
+            fs = []
+            for op in case["ops"]:
+                if op[0] == "r": fs.append(f"r:{op[1]}:{hx(seq_head(op[1])[1])}")
+                elif op[0] == "b": fs.append("b:" + hx(b"01"))
+                else: fs.append(f"e:{op[1]}:" + hx(unhx(op[2]).decode("utf-8", "replace").encode("utf8", "replace")))
+            return ["h1seq " + ",".join(fs)]
+        if case["op"] == "h2err":
+            c, o, h = H2_STATES[case["state"]]
+            return [f"h2err {c} {o} {h} {case['code']} " + hx(msg_of(case).encode("utf8", "replace"))]
         if case["op"] == "upg":
             obs = self._stash[1] if getattr(self, "_stash", (None,))[0] == self._key(case) else self.impl(case)
             out = [("resp" if kind == "resp" else "fmt") + f" {st} {m}" for kind, st, m, _ in obs["calls"]]
@@ -690,6 +842,12 @@ class Check(PropertyCheck):
         return list(replies) + (["unmatched=0"] if case["op"] == "e2e" else [])
 
     def impl_view(self, case, obs):
+        if case["op"] == "errseq":
+            return [f"{obs['wire_hex']} {sum(1 for _, n in obs['wrote'] if n)} {'open' if obs['open'] else 'closed'}"]
+        if case["op"] == "h2err":
+            if obs["kind"] == "nothing": return ["nothing"]
+            if obs["kind"] == "reset": return [f"reset {obs['reset']}"]
+            return [obs["kind"] + " " + ",".join(f"{k}:{v}" for k, v in obs["hdrs"]) + " " + obs["body_hex"]]
         if case["op"] == "upg":
             v = [c[3] for c in obs["calls"]]
             if case["req"] != "connect":
@@ -711,6 +869,10 @@ class Check(PropertyCheck):
         return v + [f"unmatched={unmatched}"]
 
     def classify(self, case, obs):
+        if case["op"] == "errseq":
+            return ("errseq", json_key(case["ops"]))
+        if case["op"] == "h2err":
+            return ("h2err", case["code"], case["state"], case["msg_hex"])
         if case["op"] == "upg":
             return ("upg", case["req"], case["srv"], case.get("stream_req"), case["mk_hex"])
         if case["op"] == "err":
@@ -721,6 +883,10 @@ class Check(PropertyCheck):
         return ("e2e", case["proto"], case["sc"], case.get("mode"), case["mk_hex"], case.get("cut", 0), bool(case.get("novalidate")))
 
     def branches(self, case, obs):
+        if case["op"] == "errseq":
+            return [f"errseq:pages={sum(1 for _, n in obs['wrote'] if n)}:" + ("open" if obs["open"] else "closed")]
+        if case["op"] == "h2err":
+            return [f"h2err:{case['state']}:{obs['kind']}"]
         if case["op"] == "upg":
             ev = read_client_wire(unhx(obs["wire_hex"]))[0]
             return [f"upg:{case['req']}:{case['srv']}:" + "+".join(e[0] for e in ev)]
